@@ -5233,6 +5233,12 @@ class PyCdlib:
 
             (udf_name, udf_parent) = self._udf_name_and_parent_from_path(udf_path_bytes)
 
+            # The File Identifier stores the name as Latin-1 or UCS-2, so remove
+            # it by the identifier as it is stored, not by the UTF-8 path.
+            (udf_ident, udf_entry_unused) = self._find_udf_record(udf_path_bytes)
+            if udf_ident is not None:
+                udf_name = udf_ident.fi
+
             num_extents_to_remove = udf_parent.remove_file_ident_desc_by_name(udf_name,
                                                                               self.logical_block_size)
             # Remove space (if necessary) in the parent File Identifier
